@@ -14,7 +14,7 @@ _spec.loader.exec_module(_c01)
 FAMILIES = {
     "C02": (("commit", 150, 800), ("pool", 40, 200)),
     "C05": (("pool", 150, 800), ("commit", 40, 200), ("retry", 40, 200)),     # failure paths hold pool events too
-    "C08": (("batch", 120, 600), ("commit", 60, 300)),
+    "C08": (("batch", 120, 600), ("commit", 60, 300), ("retry", 40, 200)),    # given-up batches (dead queue, split parents): every added event committed exactly once
     "C09": (("retry", 180, 900),),
 }
 
